@@ -78,24 +78,29 @@ structure Params (α : Type) where
   area : Axis → α
   invVol : α
   dt : α
+  /-- the boundary condition on the upper (`true`) / lower side of each non-periodic axis
+  (`HydroBoundaryManager`) -/
+  bc : Axis → Bool → Boundary
 
-/-- the gradient sweeps (`do_gradient_calculation`, `do_ghost_gradient_calculation` with a
-reflective boundary); the contribution is `(dwdx, primitives seen by the left cell, … by the right
+/-- the gradient sweeps (`do_gradient_calculation`, `do_ghost_gradient_calculation` with the
+boundary condition `pr.bc` of that side); the contribution is `(dwdx, primitives seen by the left cell, … by the right
 cell)` -/
 def gradPhys (pr : Params α) : Phys (HV α) (Q α × Q α × Q α) where
   contrib ax L R := (dwdx L.prim R.prim (pr.dxinv ax), R.prim, L.prim)
   ghostContrib ax up L :=
-    let Wr := reflectiveRightGradient ax L.prim
-    (dwdx L.prim Wr (if up then pr.dxinv ax else -(pr.dxinv ax)), Wr, Wr)
+    let dxinv := if up then pr.dxinv ax else -(pr.dxinv ax)
+    let Wr := ghostGradientRight (pr.bc ax up) ax (orientation dxinv) L.prim
+    (dwdx L.prim Wr dxinv, Wr, Wr)
   addLeft ax h k := gradAddLeft ax h k.1 k.2.1
   addRight ax h k := gradSubRight ax h k.1 k.2.2
 
-/-- the flux sweeps (`do_flux_calculation`, `do_ghost_flux_calculation` with a reflective
-boundary); the contribution is the limited flux `F`: `left -= F`, `right += F` -/
+/-- the flux sweeps (`do_flux_calculation`, `do_ghost_flux_calculation` with the boundary
+condition `pr.bc` of that side); the contribution is the limited flux `F`: `left -= F`, `right += F` -/
 def fluxPhys (flux : FluxFn α) (pr : Params α) : Phys (HV α) (Q α) where
   contrib ax L R := faceFlux flux pr.tiny pr.g ax L R (pr.dx ax) (pr.area ax) pr.dt
   ghostContrib ax up L :=
-    ghostFaceFlux flux pr.tiny pr.g ax L (if up then pr.dx ax else -(pr.dx ax)) (pr.area ax) pr.dt
+    ghostFaceFluxB (pr.bc ax up) flux pr.tiny pr.g ax L (if up then pr.dx ax else -(pr.dx ax))
+      (pr.area ax) pr.dt
   addLeft _ h k := { h with dcons := h.dcons.sub k }
   addRight _ h k := { h with dcons := h.dcons.add k }
 
